@@ -105,9 +105,39 @@ theorem valid_token_paths : (paths getSessionWithValidToken).all (fun p =>
       p.evs.contains (.call ["accessToken", "err"] "sess.AccessToken" [] [])
     else p.evs.getLast? = some (.ret [.nil, .expr "\"\"", .expr "err"])) = true := by decide
 
+/-- **login callback** (C02 C14 C17): the login cookie is cleared first thing on EVERY path; a session is created only after the login cookie was read and
+    `Client.LoginCallback` (gate + code redemption + ID-token validation) returned no error; the session cookie is set only after the store write succeeded; the
+    redirect goes to the CLEANED referer of the login cookie, after the retry counter was cleared; the raw-token legacy cookie only under its flag (finding F7) -/
+theorem login_callback_paths : (paths loginCallback).all (fun p =>
+    p.evs.take 2 = [.call ["opts"] "s.GetCookieOptions" ["r"] [], .call [] "cookie.Clear" ["w", "cookie.Login", "opts.WithSameSite(http.SameSiteLaxMode)"] []] &&
+    (if p.called "s.SessionManager.Create" then
+       p.conds.take 2 = [("err != nil", false), ("err != nil", false)] && p.before "openid.GetLoginCookie" "s.Client.LoginCallback" &&
+       p.before "s.Client.LoginCallback" "s.SessionManager.Create" && p.calls "s.SessionManager.Create" = [["r", "tokens", "sessionLifetime"]] &&
+       p.calls "s.Client.LoginCallback" = [["r", "loginCookie"]]
+     else errorResponse p) &&
+    (if p.called "sess.SetCookie" then p.conds.take 3 = [("err != nil", false), ("err != nil", false), ("err != nil", false)] && p.before "s.SessionManager.Create" "sess.SetCookie" else true) &&
+    (if p.called "http.Redirect" then
+       p.conds.take 4 = [("err != nil", false), ("err != nil", false), ("err != nil", false), ("err != nil", false)] && !errorResponse p &&
+       p.calls "http.Redirect" = [["w", "r", "redirect", "http.StatusFound"]] && p.evs.contains (.call ["redirect"] "s.Redirect.Clean" ["r", "loginCookie.Referer"] []) &&
+       (p.calls "cookie.Clear").getLast? = some ["w", "cookie.Retry", "s.GetCookieOptions(r)"] && p.before "sess.SetCookie" "http.Redirect"
+     else errorResponse p) &&
+    (if p.called "cookie.SetLegacyCookie" then p.took "s.Config.LegacyCookie" true else true)) = true := by decide
+
+/-- **auto-login answer** (C12): a navigation is redirected (302) to the login URL naming the REQUESTED URL; anything else gets 401 with a Location header naming the
+    referring page (or the ingress path when there is none) and is never redirected -/
+theorem autologin_paths : (paths handleAutologin).all (fun p =>
+    if p.took "httpinternal.IsNavigationRequest(r)" true then
+      p.evs.contains (.call ["target"] "r.URL.String" [] []) && p.calls "loginURL" = [["target", "\"navigation request detected; redirecting to login...\""]] &&
+      p.calls "http.Redirect" = [["w", "r", "location", "http.StatusFound"]] && p.statuses = [] && p.returned
+    else
+      p.evs.contains (.call ["target"] "r.Referer" [] []) && (p.took "target == \"\"" false || p.evs.contains (.assign "target" "path")) &&
+      !p.called "http.Redirect" && p.statuses = ["http.StatusUnauthorized"] &&
+      (p.calls "w.Header().Set").head? = some ["\"Location\"", "location"] && p.before "w.Header().Set" "w.WriteHeader") = true := by decide
+
 -- non-vacuity: each handler has a success path
 example : ((paths logoutLocal).filter (·.statuses = ["http.StatusNoContent"])).length = 2 ∧ ((paths logout).filter (·.called "http.Redirect")).length = 4 ∧
     ((paths logoutFrontChannel).filter (·.statuses = ["http.StatusOK"])).length = 1 ∧ ((paths proxyHandler).filter (·.called "mw.WithAccessToken")).length = 12 ∧
-    ((paths proxyHandler).filter (·.called "handleAutologin")).length > 0 := by decide
+    ((paths proxyHandler).filter (·.called "handleAutologin")).length > 0 ∧ ((paths loginCallback).filter (·.called "http.Redirect")).length = 64 ∧
+    (paths handleAutologin).length = 5 := by decide
 
 end Ww.Proofs.GenTie.Handlers
